@@ -28,6 +28,7 @@ class World(object):
             if 'get_list_mms' in n:
                 self.ex.memo_fns.add(n)
         self._cat = {}
+        self._cache = {}
 
     def fn_by_demangled(self, pred):
         out = []
@@ -133,6 +134,33 @@ class World(object):
         cls = self.class_of(sol)
         c = SC[sol['scalar']]
         return '_ZN4MASA%d%sI%sE%d%sE%s%s' % (len(cls), cls, c, len(meth), meth, c * arity if arity else ('' if extra else 'v'), extra)
+
+    def dispatch(self, sol, meth, arity, extra=''):
+        """function a virtual call obj->meth(Scalar x arity) reaches: the object's vtable entry at the slot the base class
+        manufactured_solution<Scalar> declares for that signature (what the API's call does); the class's own member of
+        that name when the base declares no such virtual (helpers)"""
+        c = SC[sol['scalar']]
+        base = '_ZN4MASA21manufactured_solutionI%sE%d%sE%s%s' % (c, len(meth), meth, c * arity if arity else ('' if extra else 'v'), extra)
+        key = ('base-slots', sol['scalar'])
+        if key not in self._cache:
+            st, _, _ = self.catalogue(sol['scalar'])
+            slots = {}
+            vt = '_ZTVN4MASA21manufactured_solutionI%sEE' % c
+            if vt in st.gmap:
+                rid, off, k = st.gmap[vt], 16, 0
+                while (rid, off) in st.mem:
+                    e = st.mem[(rid, off)][1]
+                    if isinstance(e, FnPtr):
+                        slots[e.name] = k
+                    off += 8
+                    k += 1
+            self._cache[key] = slots
+        k = self._cache[key].get(base)
+        if k is not None:
+            tbl = self.vtable_slots(sol)
+            if k < len(tbl) and tbl[k] is not None:
+                return tbl[k]
+        return self.method(sol, meth, arity, extra)
 
     def class_of(self, sol):
         # vtable symbol _ZTVN4MASA<len><cls>I<d|e>EE
